@@ -687,6 +687,17 @@ var concInst = map[string][]string{
 // both threads draw the same temp names first, so that the retry loops collide
 var concRand = [][]string{{"x", "r1", "r2", "r3", "r4", "r5"}, {"x", "r1", "q2", "q3", "q4", "q5"}, {"x", "r1", "r2", "s3", "s4", "s5"}}
 
+var concCoqWitnesses = []struct {
+	name, prog string
+	sched      []int
+}{
+	{"mkdir_remove", "mkdir /a/d/x ; remove /a/d", []int{1, 0, 0, 0, 1, 1, 1, 1, 0, 0, 0}},
+	{"link_link", "link /a/f /a/x ; link /b/g /a/x", []int{1, 0, 0, 0, 0, 0, 0, 1, 1, 1, 1, 1, 1, 1, 0, 0}},
+	{"rename_rename", "rename /a/d /a/x ; rename /a/f /a/x", []int{1, 0, 0, 0, 0, 0, 0, 1, 1, 1, 1, 1, 1, 0}},
+	{"remove_rename", "remove /a/f ; rename /a/f /b/x", []int{1, 1, 1, 0, 0, 0, 0, 0, 1, 1, 1, 1, 1}},
+	{"rename_cross", "rename /a/f /b/x ; rename /b/g /a/x", []int{1, 1, 1, 1, 1, 1, 0, 0, 0, 0, 0, 0, 0, 1}},
+}
+
 type finding struct {
 	Kind     string   `json:"kind"` // nonlin | deadlock | seq-deadlock | panic
 	Fs       string   `json:"fs"`
@@ -998,6 +1009,23 @@ func runConc(cfg config) {
 		}
 		cr.finish(cfg)
 		return
+	}
+	// the witnesses of Conc/Witness.v (C06_refuted_*, C07_refuted_rename_rename): same programs, same schedules,
+	// on the real code; they go through the tie like every other execution and must deviate as the theorems say
+	for _, wc := range concCoqWitnesses {
+		p := cprog{fsname: "memfs", rand: randFor(2)}
+		for _, th := range strings.Split(wc.prog, " ; ") {
+			p.threads = append(p.threads, []ccall{parseCall(th)})
+		}
+		e := p.runWith(sched.FollowSchedule(wc.sched))
+		before := cr.stats["non_linearizable"] + cr.stats["deadlocks"]
+		cr.check(p, e, true)
+		if cr.stats["non_linearizable"]+cr.stats["deadlocks"] > before {
+			cr.stats["coq_witnesses_reproduced"]++
+		} else {
+			cr.stats["coq_witnesses_not_reproduced"]++
+			o.extra["coq_witness_failed_"+wc.name] = p.caseLine(e.initial, e.s.Schedule) + " => " + e.observed()
+		}
 	}
 	thorough := cfg.tier == "thorough"
 	r := &rng{s: cfg.seed}
